@@ -22,7 +22,9 @@ RULE = (
     "with the positions), written as YAML + .teal files. R-AVM group semantics: a joint lazy valuation search "
     "looks for a concrete group (configured members at their positions, attacker-chosen fillers, size <= 16) on "
     "which every configured contract accepts while an eligible transaction carries the detector's dangerous "
-    "value; a witness obliges the detector to list that transaction. Non-trivial = >= 2 members with a "
+    "value; a witness obliges the detector to list that transaction. Clearing: if the literal reading (R-LIT) of "
+    "its own contract, or of a member's contract that reads it through the configured absolute index / offset, "
+    "admits the dangerous value on no accepting walk, the transaction must not be listed. Non-trivial = >= 2 members with a "
     "cross-member read, or an offset other than +-1, or an absolute index other than 0; distinct by config."
 )
 ASSUMPTIONS = ["R-AVM is the reference for single contracts and for groups; only well-formed transactions are witnesses"]
@@ -252,11 +254,66 @@ def check_single(case):
     return {"nontrivial": nt, "key": case_hash(texts), "features": [f"mode={case['contracts']['C1']['mode']}"]}
 
 
+def _lit_excludes(lit, alternatives, rekey):
+    """no accepting walk (context-insensitive graph) admits the dangerous value read through `rekey`"""
+    for alt in alternatives:
+        vals = [{rekey(k): v for k, v in val.items()} for val in alt]
+        _, ci = lit.walks(vals if len(vals) > 1 else vals[0])
+        if ci:
+            return False
+    return True
+
+
+def cleared_by_statement(case, lits, det, t):
+    """Is transaction t cleared for detector det by one of the cases the statement lists?
+    -> description of the clearing contract, or None"""
+    from vf.props.detectors_ref import lit_valuations
+
+    by_id = {x["id"]: x for x in case["txns"]}
+    own_contracts = [t.get("lsig"), t.get("app")]
+    for c in own_contracts:
+        if c is None:
+            continue
+        alts = lit_valuations(det, lits[c].g)
+        if _lit_excludes(lits[c], alts, lambda k: k):
+            return f"its own contract {c} excludes the value at every accepting exit"
+    for other in case["txns"]:
+        for c in (other.get("lsig"), other.get("app")):
+            if c is None:
+                continue
+            alts = lit_valuations(det, lits[c].g)
+            if t.get("abs_cfg") is not None:
+                i = t["abs_cfg"]
+                if _lit_excludes(lits[c], alts, lambda k: ("abs", i, k)):
+                    return f"{c} (of {other['id']}) reads it through the configured absolute index {i} and excludes the value"
+            for tid, off in other.get("rel_cfg", []):
+                if tid == t["id"] and off != 0 and other is not t:
+                    if _lit_excludes(lits[c], alts, lambda k: ("rel", off, k)):
+                        return f"{c} (of {other['id']}) reads it through the configured offset {off} and excludes the value"
+    return None
+
+
 def check_group(case):
+    from vf.rlit import Lit
+
     texts = {n: RCFG(c).text for n, c in case["contracts"].items()}
     graphs = {n: RCFG(c) for n, c in case["contracts"].items()}
+    lits = {n: Lit(graphs[n], case["contracts"][n]["items"]) for n in graphs}
     group_out, cfg = run_group_detectors(case, texts)
     nwit = 0
+    ncleared = 0
+    for det in FIELD_DETECTORS:
+        for t in case["txns"]:
+            if t["id"] not in group_out[det]:
+                continue
+            why = cleared_by_statement(case, lits, det, t)
+            if why is not None:
+                raise Violation("listed-although-cleared", f"{det}: {t['id']} is listed as vulnerable, but {why}\n{cfg}\n" + "\n".join(f"--- {n}\n{x}" for n, x in texts.items()), {"detector": det})
+    for det in FIELD_DETECTORS:
+        for t in case["txns"]:
+            eligible = ("lsig" in t) if det in STATELESS else ("app" in t)
+            if eligible and t["id"] not in group_out[det] and cleared_by_statement(case, lits, det, t) is not None:
+                ncleared += 1
     for det in FIELD_DETECTORS:
         d = DANGER[det]
         for t in case["txns"]:
@@ -283,7 +340,7 @@ def check_group(case):
     cross = any(it[0] == "I" and it[1] in ("gtxn", "gtxns") for c in case["contracts"].values() for it in c["items"])
     nt = (len(case["txns"]) >= 2 and cross) or any(abs(k) not in (0, 1) for t in case["txns"] for _, k in t.get("rel_cfg", [])) or any(t.get("abs_cfg") not in (None, 0) for t in case["txns"])
     return {"nontrivial": nt and nwit > 0, "key": case_hash([texts, cfg]), "features": [f"members={len(case['txns'])}"],
-            "counters": {"witnesses": nwit}}
+            "counters": {"witnesses": nwit, "cleared_by_listed_case": ncleared}}
 
 
 def components(tier, disabled):
